@@ -15,6 +15,7 @@ func init() {
 
 func runC05(r *engine.Run) {
 	r.Rule("DOM-cancel", "AddChange removes the new node's hash from the dead set (delete(cc.Deletes, newNode.GetHash())) on every path from entry to every return: re-created content is never left recorded as dead; dead records are keyed by the hash of the node they hold")
+	r.Rule("FRESH-node", "see C03: a node object held in the dead set is never rewritten afterwards (its hash is computed on demand, so the dead record would name the live rewritten node)")
 	r.Rule("DEP-origin", "every trie node's hash pre-image starts with its origin (see C02 AGREE-hash): a hash recorded dead in one round cannot name a node created in a later round")
 	r.Rule("DOM-prune", "in PruneBelowVersion a dead-node record is handed to the deleter only when its round (decoded from the record key) is strictly below the version argument; the keys deleted from the node column family and the rounds dropped from the dead-nodes column family have the channel receive as their only provenance; records are dropped only after all node deletes; record keys/rounds and column families agree between writer (RecordDeadNodes/saveDeadNodes), reader (iteratorDeadNodes) and deleter")
 	r.Rule("AGREE-roundkey", "uint64ToBytes (writer) and bytesToUint64 (reader) use the same, big-endian byte order (the early break of the prune iteration relies on ascending key order)")
@@ -23,6 +24,7 @@ func runC05(r *engine.Run) {
 	agreeHash(r, "DEP-origin")
 	domPrune(r)
 	agreeRoundKey(r)
+	freshNode(r, "C05")
 }
 
 func domCancel(r *engine.Run) {
